@@ -57,6 +57,7 @@ def kindOfBase (name : String) : Option Kind :=
   | "after" => some Kinds.Funcs.afterKind
   | "before" => some Kinds.Funcs.beforeKind
   | "once" => some Kinds.Funcs.onceKind
+  | "oncelive" => some Kinds.Funcs.onceLiveKind
   | "retry" => some Kinds.Funcs.retryKind
   | "cache" => some Kinds.Cache.kind
   | "slist" => some (Kinds.Lists.kindFor false)
